@@ -168,6 +168,9 @@ func c03Ambiguous(rng *rand.Rand) *c03Case {
 	p.Files.Include["marks"] = "nc~@\nsh@~\nid~\nps@\n"
 	p.Files.Include["dups"] = "wget\ncurl\nwget\nnc\ncurl\nsocat\nwget\nzsh\n"
 	p.Files.Exclude["exc"] = "plain\n"
+	// exclude files that are not independent of each other: one uses a name the other defines
+	p.Files.Exclude["xdefs"] = "##!> define onlyx plain\n##!> define twice xa\n"
+	p.Files.Exclude["xuse"] = "{{onlyx}}\n##!> define twice yb\n{{twice}}\n"
 	var ls []string
 	if core.Chance(rng, 1, 2) {
 		ls = append(ls, "##!+ "+core.Pick(rng, "is", "si", "i", "s", "ssi", "iis"))
@@ -194,7 +197,7 @@ func c03Ambiguous(rng *rand.Rand) *c03Case {
 			"##!> define late {{d0}}", "{{late}}", g.WordList(1)[0],
 			"##! + i", "##! +s flag is set elsewhere", "##! ^ anchors the match", "##! $ is matched literally in the next entry", "##!  $", "##! > include inc", "##! >assemble", "##! < end", "##! => marker", "##! =< store",
 			"##!\t+ i", "##! + x",
-			"##!> include-except dups exc", "##!> include-except dups other -- t T", "##!^ {{d0}}", "##!$ {{d1}}", "##!^ \\b{{d2}}", "##!$ {{d0}}{{d1}}",
+			"##!> include-except inc xdefs xuse", "##!> include-except inc xuse xdefs exc", "##!> include-except dups exc", "##!> include-except dups other -- t T", "##!^ {{d0}}", "##!$ {{d1}}", "##!^ \\b{{d2}}", "##!$ {{d0}}{{d1}}",
 			`##!> include marks -- @ "" ~ [^\s]`, `##!> include-except marks exc -- ~ "" @ X`, `##!> include marks -- @ A ~ ""`, `cmd[\s -/]arg`, `[\s -/]`, `[\s!-/]x`, `a[^\s -~]`, `\s`, `[\s]+`))
 	}
 	p.Main = strings.Join(ls, "\n") + "\n"
